@@ -8,6 +8,7 @@ import (
 	"github.com/invopop/gobl/cbc"
 	"github.com/invopop/gobl/currency"
 	"github.com/invopop/gobl/l10n"
+	"github.com/invopop/gobl/num"
 	"github.com/invopop/gobl/org"
 	"github.com/invopop/gobl/schema"
 	"github.com/invopop/gobl/tax"
@@ -365,7 +366,9 @@ func removeIncludedTaxes(doc billable) error {
 	// had the tax removed are presented with the currency's precision after
 	// the first calculation, which may alter the result of the second one, so
 	// check again that the amount to pay is the one we started with.
-	for i := 0; i < 3; i++ {
+	// roundings applied since the amounts settled (second pass onwards)
+	var applied []num.Amount
+	for i := 0; i < 6; i++ {
 		t := doc.getTotals()
 		if t == nil || totalWithTax.Equals(t.Payable) {
 			break // nothing priced, or all good
@@ -373,9 +376,24 @@ func removeIncludedTaxes(doc billable) error {
 		// adjust by what is still missing from the amount to pay: working
 		// from the presented total with tax could be a unit out when the
 		// precise total sits exactly on a half unit.
-		rnd := totalWithTax.Subtract(t.Payable)
+		cur := totalWithTax.Subtract(totalWithTax) // the rounding in place, zero when none
 		if t.Rounding != nil {
-			rnd = rnd.Add(*t.Rounding)
+			cur = *t.Rounding
+		}
+		rnd := totalWithTax.Subtract(t.Payable).Add(cur)
+		if i > 0 {
+			for _, a := range applied {
+				if a.Equals(rnd) {
+					// a rounding that was already found wanting comes up again:
+					// two amounts one unit apart alternate because the precise
+					// total sits exactly on a half unit, and only the amount
+					// between them leads to the amount to pay
+					both := rnd.Add(cur)
+					rnd = both.RescaleUp(both.Exp() + 1).Divide(num.MakeAmount(2, 0))
+					break
+				}
+			}
+			applied = append(applied, cur)
 		}
 		t.Rounding = nil
 		if !rnd.IsZero() {
